@@ -182,6 +182,9 @@ def random_metadata(rng):
         "bounds": {"lower": rng.randint(0, 9), "upper": rng.randint(10, 99)},
         "tags": [rng.choice("abc") for _ in range(rng.randint(0, 3))],
         "ratio": rng.choice([0.5, 1.25, 2.0]),
+        # keys that look like parameter names of the library's own constructors
+        **rng.choice([{}, {}, {"metadata": {"source": "orlib", "optimum": rng.randint(1, 9)}},
+                      {"instance": "la01"}, {"schedule": [[0, 1]]}]),
     }
 
 
@@ -270,6 +273,16 @@ def run_sequences(ctx, case):
     # the instance carries its own metadata, different from the schedule's
     run.instance.metadata.update({"origin": "jsverif", "optimum": rng.randint(1, 99)})
     run.d.schedule.metadata.update({"who": "jsverif", "n": rng.randint(0, 9)})
+    if case["seed"] % 3 == 0:
+        # an earlier episode on the same dispatcher was serialised (logging) before the reset
+        while not run.done():
+            o, m = run.choose(rng, "random_ready")
+            run.dispatch(o, m)
+            if rng.random() < 0.3:
+                run.d.schedule.to_dict()
+        run.d.schedule.to_dict()
+        run.d.reset(); run.r.reset()
+        ctx.count("schedules_of_a_second_episode_after_a_serialised_first")
     while not run.done():
         o, m = run.choose(rng, rng.choice(["random_ready", "latest_start", "one_job_first"]))
         run.dispatch(o, m)
